@@ -197,7 +197,7 @@ ADDENDA3 = {
  'C12': ' Failing expressions inside processing instructions; an application class derived from RenderError.',
  'C13': ' Exceptions carrying a line / offset of their own.',
  'C14': ' Byte values and per-call encoding arguments in render histories, compared with a fresh instance.',
- 'C15': ' One cache directory shared by processes started differently (python -O, ASCII locale, other hash seed). In-process exceptions at every LINE step of build/_load on both tiers, each followed by a second use of the template in the surviving process.',
+ 'C15': ' One cache directory shared by processes started differently (python -O, ASCII locale, other hash seed). In-process exceptions at every LINE step of build/_load on both tiers, each followed by a second use of the template in the surviving process; the same while an entry stored earlier is loaded (get/_load).',
  'C16': ' Search directories whose names hold colons, blanks or a package-like prefix.',
  'C17': ' Elements that merely mention a charset beside or instead of the content-type element.',
  'C18': ' Names differing from template names only in case; the attrs builtin rendered whole; re-binding elements that close children left open.',
